@@ -405,7 +405,7 @@ Definition chk_ok (k : kind) (bs : list batch) (r : result) : bool :=
   match r with ROk _ => d2f k bs || status_ok_received bs | _ => true end.
 Definition chk_hang (k : kind) (bs : list batch) (r : result) : bool :=
   match r with
-  | RHang => negb (ev_ended (events bs) || ev_cut (events bs) false) || d2e k bs
+  | RHang => negb (ev_ended (events bs) || ev_cut (events bs) false)
   | _ => true
   end.
 Definition chk_exc (k : kind) (bs : list batch) (r : result) : bool :=
@@ -444,10 +444,10 @@ Definition row_server_hdr_hyp (k : kind) (bs : list batch) : bool :=
 Definition chk_row_server (k : kind) (bs : list batch) (r : result) : bool :=
   implb (row_server_trl_hyp k bs) (raises r (XServer BTrl))
   && implb (row_server_hdr_hyp k bs) (raises r (XServer BHdr)).
-(* the response was cut before any grpc-status (and before anything unacceptable) arrived *)
+(* the response was cut before END_STREAM and before any grpc-status (or anything unacceptable) arrived *)
 Definition row_nothing_hyp (k : kind) (bs : list batch) : bool :=
   let es := events bs in
-  ev_cut es false && negb (d2f k bs) && negb (d2c k bs)
+  ev_cut es false && negb (ev_ended es) && negb (d2f k bs) && negb (d2c k bs)
   && match ev_hdr es with None => true | Some h => acceptable (Some h) && gs_eqb (hi_gs h) GsAbsent end
   && negb (has_trl_ev es).
 Definition chk_row_nothing (k : kind) (bs : list batch) (r : result) : bool :=
@@ -461,8 +461,17 @@ Definition row_success_hyp (k : kind) (bs : list batch) : bool :=
 Definition chk_row_success (k : kind) (bs : list batch) (r : result) : bool :=
   implb (row_success_hyp k bs) (match r with ROk _ => true | _ => false end).
 
+(* an acceptable response that ends with END_STREAM without trailers and without grpc-status, not cut *)
+Definition row_missing_status_hyp (k : kind) (bs : list batch) : bool :=
+  let es := events bs in
+  acceptable (ev_hdr es) && negb (defect k bs) && ev_ended es && negb (ev_cut es false)
+  && negb (has_trl_ev es) && gs_eqb (h_gs (ev_hdr es)) GsAbsent.
+Definition chk_row_missing_status (k : kind) (bs : list batch) (r : result) : bool :=
+  implb (row_missing_status_hyp k bs) (raises r (XBadGrpcStatus BTrl)).
+
 Definition checks (k : kind) (bs : list batch) (r : result) : bool :=
-  wf_script bs && chk_table k bs r && chk_ok k bs r && chk_hang k bs r && chk_exc k bs r
+  wf_script bs && chk_row_missing_status k bs r
+  && chk_table k bs r && chk_ok k bs r && chk_hang k bs r && chk_exc k bs r
   && chk_row_non200 k bs r && chk_row_server k bs r && chk_row_nothing k bs r && chk_row_success k bs r.
 Definition all_checks (k : kind) (bs : list batch) : bool := checks k bs (outcome k bs).
 
@@ -516,15 +525,14 @@ Proof.
   unfold chk_ok in Hc5. rewrite Ho, Hf in Hc5. exact Hc5.
 Qed.
 
-(* the call finishes whenever the script ends in END_STREAM or a cut, unless END_STREAM came without
-   any grpc-status (D2e) *)
-Lemma no_hang_partial k bs :
+(* the call finishes whenever the script ends in END_STREAM or a cut *)
+Lemma no_hang_enumerated k bs :
   In k all_kinds -> In bs (cases_of 2 k) ->
-  ev_ended (events bs) || ev_cut (events bs) false = true -> d2e k bs = false ->
+  ev_ended (events bs) || ev_cut (events bs) false = true ->
   outcome k bs <> RHang.
 Proof.
-  intros Hk Hbs He Hd Ho. pose proof (domain k bs Hk Hbs) as H. split_checks H.
-  unfold chk_hang in Hc4. rewrite Ho, He, Hd in Hc4. discriminate.
+  intros Hk Hbs He Ho. pose proof (domain k bs Hk Hbs) as H. split_checks H.
+  unfold chk_hang in Hc4. rewrite Ho, He in Hc4. discriminate.
 Qed.
 
 (* nothing but GRPCError / StreamTerminatedError escapes, except in the classes D2c, D2d *)
@@ -597,6 +605,14 @@ Proof.
   destruct (outcome k bs) as [n| | |]; try discriminate. exists n. reflexivity.
 Qed.
 
+Lemma row_missing_status k bs :
+  In k all_kinds -> In bs (cases_of 2 k) -> row_missing_status_hyp k bs = true ->
+  outcome k bs = RExc (XBadGrpcStatus BTrl).
+Proof.
+  intros Hk Hbs Hh. pose proof (domain k bs Hk Hbs) as H. split_checks H.
+  unfold chk_row_missing_status in Hc7. rewrite Hh in Hc7. apply raises_eq. exact Hc7.
+Qed.
+
 (* ---- the refuted cells: the full-strength statements are false of the faithful model ---- *)
 Definition H_ok (g : gs_class) (m : md_class) : hinfo :=
   {| hi_st := S200; hi_ct := CtOk; hi_gs := g; hi_md := m |}.
@@ -617,11 +633,17 @@ Lemma d2d_refuted :
   spec_allows bs (outcome (Call false false) bs) = false.
 Proof. vm_compute. repeat split. Qed.
 
-(* D2e: the response ends with END_STREAM on DATA (or on the HEADERS), no trailers: the call hangs *)
-Lemma no_hang_refuted :
+(* (repaired D2e) the response ends with END_STREAM on DATA or on the HEADERS, no trailers: the call
+   finishes with UNKNOWN "Missing grpc-status" *)
+Lemma end_stream_without_trailers :
   let bs := one [AH (H_ok GsAbsent MdOk) false; AD true] in
+  let bs' := one [AH (H_ok GsAbsent MdOk) true] in
   wf_script bs = true /\ ev_ended (events bs) = true /\
-  outcome (Call false false) bs = RHang /\ outcome (Call false true) bs = RHang.
+  outcome (Call false false) bs = RExc (XBadGrpcStatus BTrl) /\
+  outcome (Call false true) bs = RExc (XBadGrpcStatus BTrl) /\
+  outcome (Call false false) bs' = RExc (XBadGrpcStatus BTrl) /\
+  outcome (Open false true [RI; IT]) bs' = RExc (XBadGrpcStatus BTrl) /\
+  spec_allows bs (RExc (XBadGrpcStatus BTrl)) = true.
 Proof. vm_compute. repeat split. Qed.
 
 (* D2f: open() body read one message; trailers with a non-OK status and GOAWAY arrive before the
@@ -685,11 +707,11 @@ Proof.
 Qed.
 
 (* everything a receive operation can wait for is there, or the wrapper carries the error *)
-Definition good (s : state) : bool := werr s || (has_hdr s && has_trl s && eof s).
+Definition good (s : state) : bool := werr s || (has_hdr s && eof s).
 
 Lemma good_weq a b : weq a b -> good a = good b.
 Proof.
-  intros (H1 & H2 & H3 & H4 & H5 & H6). unfold good, has_hdr, has_trl. rewrite H1, H2, H3, H4. reflexivity.
+  intros (H1 & H2 & H3 & H4 & H5 & H6). unfold good, has_hdr. rewrite H1, H2, H4. reflexivity.
 Qed.
 
 Lemma weq_set_ri s : weq (set_ri s) s. Proof. repeat split. Qed.
@@ -735,13 +757,14 @@ Proof.
 Qed.
 
 Lemma good_cond (cond : state -> bool) F :
-  (cond = has_hdr \/ cond = data_ready \/ cond = has_trl) ->
+  (cond = has_hdr \/ cond = data_ready \/ cond = trl_ready) ->
   good F = true -> werr F = false -> cond F = true.
 Proof.
   intros Hc Hg Hw. unfold good in Hg. rewrite Hw in Hg. cbn [orb] in Hg.
-  apply andb_true_iff in Hg as [Hg He]. apply andb_true_iff in Hg as [Hh Ht].
-  destruct Hc as [ -> | [ -> | -> ] ]; [exact Hh| |exact Ht].
-  unfold data_ready. rewrite He. apply orb_true_r.
+  apply andb_true_iff in Hg as [Hh He].
+  destruct Hc as [ -> | [ -> | -> ] ]; [exact Hh| |].
+  - unfold data_ready. rewrite He. apply orb_true_r.
+  - unfold trl_ready. rewrite He. apply orb_true_r.
 Qed.
 
 (* ---- the receive operations keep the invariant and do not hang ---- *)
@@ -801,13 +824,13 @@ Proof.
   destruct (negb (ri_done s)); [exact Hg|]. destruct (rt_done s); [exact Hg|].
   destruct (tonly s); [cbn [safe]; weq_good; exact Hg|].
   destruct (werr s) eqn:Hw; [exact Hg|].
-  destruct (wait has_trl s bs) as [s' bs'|s' bs'|] eqn:Ewait.
+  destruct (wait trl_ready s bs) as [s' bs'|s' bs'|] eqn:Ewait.
   - apply wait_ready in Ewait as [Ef _]. rewrite <- Ef in Hg.
-    destruct (trl s') as [t|]; [|exact I].
+    destruct (trl s') as [t|]; [|cbn [safe]; weq_good; exact Hg].
     destruct (ti_gs t), (ti_md t); cbn [safe]; weq_good; exact Hg.
   - apply wait_term in Ewait. cbn [safe]. rewrite Ewait. exact Hg.
   - apply (wait_hang _ _ _ Hw) in Ewait as [Hc Hwf].
-    rewrite (good_cond has_trl _ (or_intror (or_intror eq_refl)) Hg Hwf) in Hc. discriminate.
+    rewrite (good_cond trl_ready _ (or_intror (or_intror eq_refl)) Hg Hwf) in Hc. discriminate.
 Qed.
 
 Lemma iterate_safe fuel : forall n s bs, good (final s bs) = true -> safe (iterate fuel n s bs).
@@ -908,10 +931,10 @@ Proof.
   unfold good, apply_event. intros H. destruct (closing s); [exact H|].
   destruct (werr s) eqn:Hw.
   - destruct e; try (destruct (h2closed s)); cbn; rewrite ?Hw; reflexivity.
-  - cbn [orb] in H. apply andb_true_iff in H as [H He]. apply andb_true_iff in H as [Hh Ht].
-    unfold has_hdr, has_trl in *.
-    destruct e; try (destruct (h2closed s)); cbn; rewrite ?Hw, ?He, ?Hh, ?Ht; cbn;
-      rewrite ?Ht, ?Hh, ?orb_true_r; reflexivity.
+  - cbn [orb] in H. apply andb_true_iff in H as [Hh He].
+    unfold has_hdr in *.
+    destruct e; try (destruct (h2closed s)); cbn; rewrite ?Hw, ?He, ?Hh; cbn;
+      rewrite ?Hh, ?orb_true_r; reflexivity.
 Qed.
 
 Lemma good_mono_fold es : forall s, good s = true -> good (fold_left apply_event es s) = true.
@@ -961,29 +984,38 @@ Proof.
   destruct e; try (destruct (h2closed s)); cbn; auto.
 Qed.
 
-(* trailers in a well-formed script: headers, trailers and END_STREAM are all there at the end *)
-Lemma trailers_make_good : forall es s seen ended,
+(* END_STREAM in a well-formed script: the headers and the end of the stream are there at the end *)
+Lemma ended_makes_good : forall es s seen ended,
   cw s -> wf_events es seen ended false = true ->
   (seen = true -> has_hdr s = true \/ werr s = true) ->
-  has_trl_ev es = true -> good (fold_left apply_event es s) = true.
+  ev_ended es = true -> good (fold_left apply_event es s) = true.
 Proof.
-  unfold has_trl_ev.
-  induction es as [|x r IH]; intros s seen ended Hcw Hwf Hseen Ht; cbn [ev_trl] in Ht; [discriminate|].
+  unfold ev_ended.
+  induction es as [|x r IH]; intros s seen ended Hcw Hwf Hseen Ht; cbn [existsb] in Ht; [discriminate|].
   cbn [fold_left]. cbn [wf_events negb andb] in Hwf.
   assert (Hcw' : cw (apply_event s x)) by (apply cw_apply; exact Hcw).
-  destruct x as [h e'|e'|t| | |].
-  - apply andb_true_iff in Hwf as [Hwf Hr]. apply (IH _ true e'); [exact Hcw'|exact Hr| |exact Ht].
-    intros _. unfold apply_event. destruct (closing s) eqn:Ec.
-    + right. apply Hcw. exact Ec.
-    + left. reflexivity.
-  - apply andb_true_iff in Hwf as [Hwf Hr]. apply andb_true_iff in Hwf as [Hs _].
-    apply (IH _ seen e'); [exact Hcw'|exact Hr| |exact Ht].
-    intros Hx. apply hdr_or_werr_apply. apply Hseen. exact Hx.
+  destruct x as [h e'|e'|t| | |]; cbn [ev_end] in Ht.
+  - apply andb_true_iff in Hwf as [Hwf Hr]. destruct e'.
+    + apply good_mono_fold. unfold apply_event. destruct (closing s) eqn:Ec.
+      * apply werr_good. apply Hcw. exact Ec.
+      * unfold good, has_hdr. cbn. rewrite ?orb_true_r. reflexivity.
+    + cbn [orb] in Ht. apply (IH _ true false); [exact Hcw'|exact Hr| |exact Ht].
+      intros _. unfold apply_event. destruct (closing s) eqn:Ec.
+      * right. apply Hcw. exact Ec.
+      * left. reflexivity.
+  - apply andb_true_iff in Hwf as [Hwf Hr]. apply andb_true_iff in Hwf as [Hs _]. destruct e'.
+    + apply good_mono_fold. destruct (Hseen Hs) as [Hh|Hw].
+      * unfold apply_event. destruct (closing s) eqn:Ec.
+        -- apply werr_good. apply Hcw. exact Ec.
+        -- unfold good, has_hdr in *. cbn. rewrite Hh, ?orb_true_r. reflexivity.
+      * apply werr_good. apply werr_mono. exact Hw.
+    + cbn [orb] in Ht. apply (IH _ seen false); [exact Hcw'|exact Hr| |exact Ht].
+      intros Hx. apply hdr_or_werr_apply. apply Hseen. exact Hx.
   - apply andb_true_iff in Hwf as [Hwf Hr]. apply andb_true_iff in Hwf as [Hs _].
     apply good_mono_fold. destruct (Hseen Hs) as [Hh|Hw].
     + unfold apply_event. destruct (closing s) eqn:Ec.
       * apply werr_good. apply Hcw. exact Ec.
-      * unfold good, has_hdr, has_trl in *. cbn. rewrite Hh. apply orb_true_r.
+      * unfold good, has_hdr in *. cbn. rewrite Hh, ?orb_true_r. reflexivity.
     + apply werr_good. apply werr_mono. exact Hw.
   - apply wf_after_cut in Hwf. subst r. discriminate.
   - apply wf_after_cut in Hwf. subst r. discriminate.
@@ -994,12 +1026,13 @@ Lemma cw_init : cw init. Proof. unfold cw. cbn. discriminate. Qed.
 
 (* THE liveness theorem: for every kind of call, every body of an open() context and every delivery
    schedule -- once the response was effectively cut (GOAWAY, connection loss, RST_STREAM before
-   END_STREAM), or is well-formed and carries trailers, the call finishes *)
+   END_STREAM), or is well-formed and ends in END_STREAM (on the headers, on DATA or on trailers), the
+   call finishes *)
 Lemma no_hang_general k bs :
-  ev_cut (events bs) false = true \/ (wf_script bs = true /\ has_trl_ev (events bs) = true) ->
+  ev_cut (events bs) false = true \/ (wf_script bs = true /\ ev_ended (events bs) = true) ->
   outcome k bs <> RHang.
 Proof.
   intros H. apply outcome_no_hang. rewrite final_events. destruct H as [Hcut|[Hwf Ht]].
   - apply werr_good. apply (cut_sets_werr _ _ false cw_init); [|exact Hcut]. cbn. discriminate.
-  - apply (trailers_make_good _ _ false false cw_init Hwf); [discriminate|exact Ht].
+  - apply (ended_makes_good _ _ false false cw_init Hwf); [discriminate|exact Ht].
 Qed.
